@@ -194,10 +194,24 @@ def quiet_case(tr):
     return not (c.has_op("skip") or c.frozen or tr.stuck() or tr.aborted or tr.hang or any(o.panic for o in tr.ops))
 
 
+def check_unscripted_panic(tr):
+    """an operation panicked although the case scripts no panic (wrapped iterator, clone, closure, chunk size 0)"""
+    bad = []
+    for oi in tr.ops:
+        if oi.panic and oi.panic not in ("probe", "clone", "closure"):
+            zero = (oi.op in ("bufnew", "foreach", "enumforeach", "fold") and oi.toks[1] == "0")
+            if not (oi.panic == "chunksize" and zero):
+                bad.append("`%s` called at line %d panicked (%s) although nothing in the case panics" % (" ".join(oi.toks), oi.call, oi.panic))
+    for (i, toks) in tr.own:
+        if toks[0] == "panic" and toks[1] not in ("probe", "clone"):
+            bad.append("the owner phase panicked (%s)" % toks[1])
+    return bad
+
+
 # ---- C01 -----------------------------------------------------------------------------------------
 
 def check_C01(tr):
-    bad = check_no_dup(tr)
+    bad = check_no_dup(tr) + check_unscripted_panic(tr)
     c = tr.case
     if quiet_case(tr) and c.iters == 1 and (not c.is_iter() or c.fused()) and not c.has_op("get", "clone"):
         # "until each has observed the end": every thread's last pull saw the end
@@ -213,7 +227,7 @@ def check_C01(tr):
 
 
 def check_C02(tr):
-    return check_fidelity(tr)
+    return check_fidelity(tr) + check_unscripted_panic(tr)
 
 
 # ---- C03 -----------------------------------------------------------------------------------------
@@ -222,6 +236,7 @@ def check_C03(tr):
     bad = []
     c = tr.case
     L = c.src_len()
+    bad += check_unscripted_panic(tr)
     if (tr.stuck() or tr.hang) and not c.frozen and not any(o.panic for o in tr.ops):
         for oi in tr.ops:
             if oi.op in ("chunk", "bufnext") and oi.ret is None:
@@ -413,6 +428,12 @@ def check_C07(tr):
                 # an RMW without release continues the release sequence: keep `old`
         elif toks[1] == "src":
             clock[t][t] += 1
+            if toks[2] == "hint":
+                if inside is not None and inside != t:
+                    bad.append("thread %d reads the wrapped iterator (size_hint) at line %d while thread %d is inside next()" % (t, i, inside))
+                if last_access is not None and last_tid != t and not leq(last_access, clock[t]):
+                    bad.append("data race: size_hint by thread %d at line %d does not happen-after the previous use by thread %d" % (t, i, last_tid))
+                continue
             if toks[2] == "enter":
                 if inside is not None:
                     bad.append("thread %d enters the wrapped next() at line %d while thread %d is inside" % (t, i, inside))
@@ -495,7 +516,7 @@ def check_C15(tr):
 # ---- C09 -----------------------------------------------------------------------------------------
 
 def check_C09(tr):
-    bad = []
+    bad = check_unscripted_panic(tr)
     c = tr.case
     if tr.hang:
         bad.append("no scheduler progress for 10 s (a thread loops without reaching a scheduling point)")
@@ -588,6 +609,13 @@ def check_C11(tr):
                 if p.slot == 0 and p.call > oi.ret and tr.deliveries(p):
                     bad.append("length 0 / No reported at line %d, but the pull called at line %d delivered" % (oi.ret, p.call))
                     break
+    # (d) always No / 0 after a single or one-shot chunk pull has reported the end
+    for p in tr.pulls():
+        if p.slot == 0 and p.op in ("next", "nextv", "chunk") and p.ret is not None and saw_end(p) and not (p.op == "chunk" and p.n == 0):
+            for (line, v, oi) in reports:
+                if oi.call > p.ret and v != 0:
+                    bad.append("`%s` reported the end at line %d, but the query called at line %d answers %s" % (" ".join(p.toks), p.ret, oi.call, " ".join(oi.rtoks)))
+                    break
     # (c) truthful at quiescent points (known size, no skip before)
     if not c.is_iter() or (c.hint == "exact" and c.fused()):
         pulls = [p for p in tr.pulls() if p.slot == 0]
@@ -630,6 +658,7 @@ def check_C12(tr):
         return bad
     bad += check_fidelity(tr)
     bad += check_no_dup(tr)
+    bad += check_unscripted_panic(tr)
     if quiet_case(tr) and (not c.is_iter() or c.fused()) and all(o.ret is not None and not o.panic for o in loops):
         # every thread that pulls ends with a loop => everything is visited exactly once overall
         got = sorted(delivered_positions(tr))
